@@ -1,6 +1,7 @@
 """Every solver that a scan driver constructs gets a bystander: a second solver of the same class with other
-parameter values, constructed right after it and called with the same request right before its first call.  A scan
-therefore never observes a solver that is alone in its interpreter: state shared between the instances of a class
+parameter values, constructed right after it and called with the same request right before its first call; the solver under test is itself
+called once at an earlier time before its first measured call.  A scan therefore never observes a solver that is
+alone in its interpreter or has no past: state shared between the instances of a class
 (class attributes, module globals, caches keyed on the request) shows up in the measured laws of every property,
 not only in the history check C06.  Installed in the scan workers only (never in the C05 / C06 replays, whose
 operation sequences are dictated by the specification); wraps the metaclass __call__ and ExactSolver.__call__ at
@@ -41,6 +42,7 @@ def install():
             return obj
         _busy[0] = True
         try:
+            obj.__dict__["_verif_first"] = True
             other = {kk: (v if kk in KEEP else _other(v)) for kk, v in k.items()}
             try:
                 with contextlib.redirect_stdout(io.StringIO()), warnings.catch_warnings():
@@ -53,18 +55,27 @@ def install():
             _busy[0] = False
         return obj
 
+    def quietly(fn):
+        _busy[0] = True
+        try:
+            with contextlib.redirect_stdout(io.StringIO()), warnings.catch_warnings(), np.errstate(all="ignore"):
+                warnings.simplefilter("ignore")
+                fn()
+        except Exception:
+            pass
+        finally:
+            _busy[0] = False
+
     def call(self, r, t):
-        by = self.__dict__.pop("_verif_bystander", None) if hasattr(self, "__dict__") else None
-        if by is not None and not _busy[0]:
-            _busy[0] = True
-            try:
-                with contextlib.redirect_stdout(io.StringIO()), warnings.catch_warnings(), np.errstate(all="ignore"):
-                    warnings.simplefilter("ignore")
-                    orig_call(by, np.array(r, copy=True), t)
-            except Exception:
-                pass
-            finally:
-                _busy[0] = False
+        d = getattr(self, "__dict__", {})
+        first = d.pop("_verif_first", False)
+        by = d.pop("_verif_bystander", None)
+        if first and not _busy[0]:
+            if by is not None:
+                quietly(lambda: orig_call(by, np.array(r, copy=True), t))
+            # ... and the solver under test has a past of its own: the same request at an earlier time (a time sweep is ordinary
+            # use); what that leaves behind on the object must not matter to the call that is measured
+            quietly(lambda: orig_call(self, np.array(r, copy=True), 0.37 * t))
         return orig_call(self, r, t)
     meta.__call__ = construct
     base.ExactSolver.__call__ = call
